@@ -218,7 +218,8 @@ void Value::do_sub() {
     if (!get_arith_uint256(Value(args[0]), a)) return;
     if (!get_arith_uint256(Value(args[1]), b)) return;
     if (args.size() == 3 && !get_arith_uint256(Value(args[2]), g)) return;
-    b = -b;
+    // a - b = a + (g - b) modulo g; without a group, modulo 2^256
+    if (!g.EqualTo(0)) b = g - b; else b = -b;
     add(data, a, b, g);
 }
 
